@@ -904,9 +904,11 @@ def get_principal_component_matrix(A: np.ndarray,
     [U, S, V_H] = np.linalg.svd(A)
     num_rows = U.shape[0]
     num_cols = V_H.shape[1]
-    newS = np.zeros(num_rows, dtype=A.dtype)
-    newS[:num_components] = S[:num_components]
-    newS = np.diag(newS)[:, :num_cols]
+    # 'newS' must have the shape of A (also when A has more columns than
+    # rows) and the type of the singular values (A may have an integer type)
+    newS = np.zeros([num_rows, num_cols], dtype=S.dtype)
+    idx = np.arange(num_components)
+    newS[idx, idx] = S[:num_components]
 
     out = np.dot(U, np.dot(newS, V_H[:, :num_components]))
 
